@@ -7,7 +7,7 @@ pid, spec = sys.argv[1], sys.argv[2]
 ns = {}
 exec(open(spec).read(), ns)
 HEADER, IMPORTS, ITEMS = ns['HEADER'], ns['IMPORTS'], ns['ITEMS']
-script = IMPORTS + '\nSet Printing Width 118.\nSet Printing Depth 1000.\n' + ''.join('Check %s.\n' % l for _, l, _ in ITEMS)
+script = IMPORTS + '\nSet Printing Width 118.\nSet Printing Depth 1000.\n' + ''.join('Check @%s.\n' % l for _, l, _ in ITEMS)
 open('/tmp/w/chk.v', 'w').write(script)
 out = subprocess.run(['coqc', '-Q', '.', 'Ufw', '/tmp/w/chk.v'], cwd='/verif/coq', capture_output=True, text=True)
 if out.returncode:
@@ -17,7 +17,7 @@ stmts = {}
 for b in blocks:
     m = re.match(r'^(\S+)\s*\n?\s*:\s*(.*)$', b, flags=re.S)
     if m:
-        stmts[m.group(1)] = m.group(2).rstrip()
+        stmts[m.group(1).lstrip('@')] = m.group(2).rstrip()
 o = [HEADER, IMPORTS, '']
 for name, lemma, comment in ITEMS:
     key = lemma.split('.')[-1]
@@ -26,7 +26,7 @@ for name, lemma, comment in ITEMS:
         print('no statement for', lemma, list(stmts)[:5]); sys.exit(1)
     if comment:
         o.append('(* %s *)' % comment)
-    o.append('Theorem %s :\n  %s.\nProof. exact %s. Qed.\nPrint Assumptions %s.\n' % (name, st.replace('\n', '\n  '), lemma, name))
+    o.append('Theorem %s :\n  %s.\nProof. exact (@%s). Qed.\nPrint Assumptions %s.\n' % (name, st.replace('\n', '\n  '), lemma, name))
 o.append(ns.get('EXTRA', ''))
 open('/verif/coq/Properties_%s.v' % pid, 'w').write('\n'.join(o))
 print('written', len(ITEMS), 'theorems')
